@@ -42,11 +42,13 @@ ASSUMPTIONS = ["the reference models in ref/c15_ini_model.py and ref/c15_text_mo
                "bounded: no counterexample within the stated alphabets and sizes, nothing more"]
 BOUNDS = {
     "quick": {"ini_full_option_structure_for": "sections (s1, S 2) and single sections; other name pairs <= 1 option per block",
-              "fixed_cols": 2, "fixed_rows": 2, "fixed_env_rows": 1, "delim_cols": 2, "delim_rows": 2,
+              "fixed_cols": 4, "fixed_full_cols": 2, "fixed_rows": 2, "fixed_env_rows": 1, "delim_cols": 3, "delim_full_cols": 2,
+              "delim_rows": 2,
               "kv_lines": 4, "active_lines": 4, "unsplit_logical": 2, "optlist_opts": 3,
               "ini_sections": 2, "ini_opts_per_block": 2, "ini_default_opts": 2, "ini_fillers": 1,
               "search_rows": 2, "search_conditions": 2},
-    "thorough": {"fixed_cols": 3, "fixed_rows": 2, "fixed_env_rows": 2, "delim_cols": 3, "delim_rows": 2,
+    "thorough": {"fixed_cols": 4, "fixed_full_cols": 3, "fixed_rows": 2, "fixed_env_rows": 2, "delim_cols": 3,
+                 "delim_full_cols": 3, "delim_rows": 2,
                  "kv_lines": 5, "active_lines": 5, "unsplit_logical": 3, "optlist_opts": 3,
                  "ini_sections": 2, "ini_opts_per_block": 2, "ini_default_opts": 3, "ini_fillers": 2,
                  "search_rows": 3, "search_conditions": 2},
@@ -93,9 +95,10 @@ def check_fixed(case):
     lines = T.fixed_render(case)
     exp = T.fixed_expected(case)
     got = _call(parse_fixed_table, list(lines), **T.fixed_kwargs(case))
-    again = _call(parse_fixed_table, list(lines), **T.fixed_kwargs(case))   # same arguments, same process: must not depend on the first call
+    # same arguments again in the same process (<= 1 row cases): the answer must not depend on the first call
+    again = _call(parse_fixed_table, list(lines), **T.fixed_kwargs(case)) if len(case["rows"]) <= 1 else got
     vio = []
-    if not T.strict_eq(got, exp):
+    if got != exp:                     # cells are strings: == is exact here
         vio.append(("fixed:rows-equal-rendered-cells", exp, got,
                     {"later_header_substring_of_earlier": T.fixed_header_ambiguity(case)}))
     elif any(list(r) != T.keys_of(case) for r in got):
@@ -110,9 +113,9 @@ def check_delim(case):
     lines = T.delim_render(case)
     exp = T.delim_expected(case)
     got = _call(parse_delimited_table, list(lines), **T.delim_kwargs(case))
-    again = _call(parse_delimited_table, list(lines), **T.delim_kwargs(case))
+    again = _call(parse_delimited_table, list(lines), **T.delim_kwargs(case)) if len(case["rows"]) <= 1 else got
     vio = []
-    if not T.strict_eq(got, exp):
+    if got != exp:
         vio.append(("delimited:rows-equal-rendered-cells", exp, got, {}))
     else:
         raw = case.get("raw_line_key")
@@ -131,7 +134,7 @@ def check_kv(case):
     got = _call(split_kv_pairs, list(case["lines"]), comment_char=case["comment_char"], filter_string=case["filter_string"],
                 split_on=case["split_on"], use_partition=case["use_partition"], ordered=case["ordered"])
     vio = []
-    if not isinstance(got, dict) or not T.strict_eq(dict(got), exp):
+    if not isinstance(got, dict) or dict(got) != exp:
         blank_kept = bool(case["comment_char"] is None and case["use_partition"] and isinstance(got, dict)
                           and any(not l.strip() for l in case["lines"]) and dict(got) == dict(exp, **{"": ""}))
         vio.append(("kv:pairs-equal-rendered", exp, got if not isinstance(got, dict) else dict(got),
@@ -146,7 +149,7 @@ def check_active(case):
     exp = T.active_ref(case["lines"], case["comment_char"])
     got = _call(get_active_lines, list(case["lines"]), case["comment_char"])
     vio = []
-    if not T.strict_eq(got, exp):
+    if got != exp:
         vio.append(("active:lines-without-comments-and-blanks", exp, got, {}))
     return vio, (bool(exp) and len(exp) < len(case["lines"])), "active:%d:%s" % (len(exp), not vio)
 
@@ -157,7 +160,7 @@ def check_unsplit(case):
     exp = T.unsplit_expected(case)
     got = _call(lambda: list(unsplit_lines(lines, cont_char=case["cont_char"], keep_cont_char=case["keep"])))
     vio = []
-    if not T.strict_eq(got, exp):
+    if got != exp:
         vio.append(("unsplit:logical-lines-recovered", exp, got, {}))
     return vio, len(lines) > len(exp), "unsplit:%d:%s" % (len(exp), not vio)
 
@@ -369,7 +372,7 @@ def replay(case):
 # =====================================================================================================
 
 FIXED_HEADERS = ["A", "AB", "B", "NAME", "ME", "COL1", "C 1"]
-DELIM_HEADERS = ["A", "AB", "B", "C 1"]
+DELIM_HEADERS = ["A", "AB", "B", "C 1", ""]      # "" = an unnamed column (printable header delimiter only)
 
 
 def header_tuples(universe, maxn):
@@ -407,33 +410,54 @@ def envs(first_header):
 
 
 def fixed_cases(headers, tier):
+    """n <= 2: cells x rows in the default environment, every environment (junk / footer / indent / tab) for
+    <= fixed_env_rows rows.  n = 3: quick <= 1 row in the default environment; thorough as for n = 2 with
+    <= 1 row per non-default environment.  n = 4 (the code walks a cursor from header to header: first, middle
+    and last columns differ): <= 1 row, default environment, quick over the cells {"", column-wide}."""
     b = BOUNDS[tier]
     n = len(headers)
     subst = "C 1" in headers
-    full_env_rows = b["fixed_env_rows"] if n <= 2 else 1
-    for gaps in itertools.product([1, 2], repeat=n - 1):
+    quick = tier == "quick"
+    maxrows = b["fixed_rows"] if (n <= 2 or (n == 3 and not quick)) else 1
+    if n <= 2:
+        env_rows = b["fixed_env_rows"]
+    elif n == 3 and not quick:
+        env_rows = 1
+    else:
+        env_rows = -1                      # default environment only
+    gap_choices = list(itertools.product([1, 2], repeat=n - 1))
+    if n == 2:
+        gap_choices.append((4,))             # a wide gap, default environment only
+    if n >= 4 and quick:
+        gap_choices = [(1,) * (n - 1), (2,) * (n - 1)]
+    for gaps in gap_choices:
         cols = [fixed_cells(len(headers[i]) + gaps[i], False) for i in range(n - 1)] + [fixed_cells(0, True)]
+        if n >= 4 and quick:
+            cols = [["", c[-1]] for c in cols[:-1]] + [["", "x"]]
         rowlist = list(itertools.product(*cols))
-        for rows in rowsets(rowlist, b["fixed_rows"]):
+        for rows in rowsets(rowlist, maxrows):
             for (junk, hi, foot, ti) in envs(headers[0]):
                 default_env = junk is None and not hi and foot is None and not ti
-                for indent in (0, 2):
-                    if not (default_env and indent == 0) and len(rows) > full_env_rows:
-                        continue
-                    for rstrip in (False, True):
-                        case = {"kind": "fixed", "headers": headers, "gaps": list(gaps), "rows": rows,
-                                "indent": indent, "rstrip": rstrip}
-                        if junk is not None:
-                            case["junk"] = junk
-                        if hi:
-                            case["heading_ignore"] = True
-                        if foot is not None:
-                            case["footer"] = list(foot)
-                        if ti:
-                            case["trailing_ignore"] = True
-                        if subst:
-                            case["subst"] = True
-                        yield case
+                for indent, tab in ((0, False), (2, False), (0, True)):
+                    if True:
+                        if not (default_env and indent == 0 and not tab) and (len(rows) > env_rows or max(gaps or (0,)) > 2):
+                            continue
+                        for rstrip in (False, True):
+                            case = {"kind": "fixed", "headers": headers, "gaps": list(gaps), "rows": rows,
+                                    "indent": indent, "rstrip": rstrip}
+                            if tab:
+                                case["tab"] = True
+                            if junk is not None:
+                                case["junk"] = junk
+                            if hi:
+                                case["heading_ignore"] = True
+                            if foot is not None:
+                                case["footer"] = list(foot)
+                            if ti:
+                                case["trailing_ignore"] = True
+                            if subst:
+                                case["subst"] = True
+                            yield case
 
 
 def delim_cells(delim, last, max_splits_last):
@@ -451,8 +475,11 @@ def delim_cells(delim, last, max_splits_last):
 def delim_cases(headers, delim, tier):
     b = BOUNDS[tier]
     n = len(headers)
+    quick3 = (tier == "quick" and n >= 3) or "" in headers      # <= 1 row, default environment
     for header_delim in ("same", None, ";"):
         hd = delim if header_delim == "same" else header_delim
+        if "" in headers and hd is None:
+            continue                             # white space cannot delimit an empty heading
         if "C 1" in headers:
             substs = [True] if hd is None else [False, True]
         else:
@@ -469,8 +496,12 @@ def delim_cases(headers, delim, tier):
                                         and raw is None and subst == substs[0])
                         for (junk, hi, foot, ti) in envs(headers[0]):
                             default_env = junk is None and not hi and foot is None and not ti
+                            if hi and headers[0] == "":
+                                continue                 # heading_ignore needs a non-empty first heading to look for
                             if default_env:
-                                maxrows = b["delim_rows"] if (n <= 2 or default_opts) else 1
+                                maxrows = b["delim_rows"] if ((n <= 2 or default_opts) and not quick3) else 1
+                            elif quick3:
+                                maxrows = -1
                             else:
                                 maxrows = 1 if (header_delim == "same" and max_splits == -1 and subst == substs[0]) else -1
                             for rows in rowsets(rowlist, maxrows) if maxrows >= 0 else ():
@@ -495,7 +526,7 @@ KV_LINES = ["k = v", "k=v=w", " k : v ", "k = v2", "# k = old", "j = u # c", "",
             # empty values: the separator is present, so the pair (k, "") is data and overrides an earlier k
             "k =", "k=", "k =  # c"]
 KV_BLANK = ("", "   ")
-ACTIVE_LINES = [" x ", "x # c", "# c", "", "  ", "x#c#d", " # c", "x ; y", "a//b"]
+ACTIVE_LINES = [" x ", "x # c", "# c", "", "  ", "x#c#d", " # c", "x ; y", "a//b", "a/b///c"]
 
 
 def kv_cases(prefix, maxlen):
@@ -503,14 +534,11 @@ def kv_cases(prefix, maxlen):
     for n in range(len(prefix), maxlen + 1):
         for tail in itertools.product(range(len(KV_LINES)), repeat=n - len(prefix)):
             lines = [KV_LINES[i] for i in list(prefix) + list(tail)]
-            blank = any(l in KV_BLANK for l in lines)
             for cc in ("#", ";", None):
-                if cc is None and blank:
-                    continue          # no comment syntax => the caller has no blank-line syntax either
                 for fs in (None, "k"):
                     for so in ("=", ":"):
                         for up in (False, True):
-                            for od in (False, True):
+                            for od in ((True, False) if cc == "#" else (True,)):     # the plain dict differs only in type
                                 yield {"kind": "kv", "lines": lines, "comment_char": cc, "filter_string": fs,
                                        "split_on": so, "use_partition": up, "ordered": od}
 
@@ -532,18 +560,18 @@ def unsplit_cases(max_logical, max_pieces):
         for head in itertools.product(UNSPLIT_PIECES, repeat=k - 1):
             for last in UNSPLIT_LAST:
                 logical.append(list(head) + [last])
-    for n in range(1, max_logical + 1):
+    for n in range(0, max_logical + 1):
         for t in itertools.product(logical, repeat=n):
             for cc in ("\\", "&"):
                 for trail in ("", " "):
                     for keep in (False, True):
-                        for dangling in (False, True):
+                        for dangling in ((False, True) if n else (False,)):
                             yield {"kind": "unsplit", "logical": [list(x) for x in t], "cont_char": cc, "trail": trail,
                                    "keep": keep, "dangling": dangling}
 
 
 OPT_KEYS = ["rw", "ro", "size"]
-OPT_VALUES = [None, "v", "", "a=b", "\"q r\"", "'q'", "\"q'"]
+OPT_VALUES = [None, "v", "", "a=b", "=b", "\"q r\"", "'q'", "\"q'", "\"", "\"\""]
 
 
 def optlist_cases(maxopts, shard, of):
@@ -568,7 +596,7 @@ def optlist_cases(maxopts, shard, of):
 SEC_NAMES = ["s1", "S 2", "MY_DEFAULTS"]
 OPT_NAMES = ["key", "Key", "other"]
 NAME_UNIVERSE = ["s1", "S 2", "MY_DEFAULTS", "DEFAULTS", "xDEFAULT", "DEFAULT x", "default", "Default"]
-FILLERS = ["# c", "; c", "", "   ", "# [x]", "; key = z", "#key = z"]
+FILLERS = ["# c", "; c", "", "   ", "# [x]", "; key = z", "#key = z", "  # c", "  ; c"]
 INI_VALUES = ["v", "", "a=b", "a:b", "x y", ["p", "q r"], ["", "q"]]
 INI_SEPS = [" = ", "=", ": ", ":"]
 
@@ -610,6 +638,59 @@ def ini_struct_cases(secs, dpos, tier, repeat=False, max_opts=2):
             blocks = list(zip(secs, lists))
             blocks.insert(dpos, ("DEFAULT", dl))
             yield {"kind": "ini", "doc": mkdoc(blocks)}
+
+
+def ini_blocks_cases(names, universes, allow=(False,)):
+    """Every document whose blocks carry `names` in this order; block i takes every option list of
+    <= universes[i][1] entries over universes[i][0] = [(option name, value kind)], value kind in
+    {"v" (a unique token), "" (empty value), None (bare name)}."""
+    lists = []
+    for opts, maxn in universes:
+        lists.append([t for n in range(0, maxn + 1) for t in itertools.product(opts, repeat=n)])
+    for combo in itertools.product(*lists):
+        k = 0
+        blocks = []
+        for name, t in zip(names, combo):
+            ents = []
+            for (nm, kind) in t:
+                if kind == "v":
+                    ents.append(["o", nm, "v%d" % k, " = "])
+                    k += 1
+                elif kind == "":
+                    ents.append(["o", nm, "", " = "])
+                else:
+                    ents.append(["o", nm, None, ""])
+            blocks.append({"name": name, "entries": ents})
+        for a in allow:
+            case = {"kind": "ini", "doc": {"blocks": blocks}}
+            if a:
+                case["allow_no_value"] = True
+            yield case
+
+
+def _u(names, kinds=("v",)):
+    return [(n, k) for n in names for k in kinds]
+
+
+INI_EXTRA = {
+    # two separate DEFAULT blocks at every position around one section
+    "two-defaults": [(["DEFAULT", "DEFAULT", "s1"], [(_u(OPT_NAMES), 2), (_u(OPT_NAMES), 2), (_u(OPT_NAMES), 1)]),
+                     (["DEFAULT", "s1", "DEFAULT"], [(_u(OPT_NAMES), 2), (_u(OPT_NAMES), 1), (_u(OPT_NAMES), 2)]),
+                     (["s1", "DEFAULT", "DEFAULT"], [(_u(OPT_NAMES), 1), (_u(OPT_NAMES), 2), (_u(OPT_NAMES), 2)])],
+    # option names that are prefixes of each other
+    "prefix-names": [(["DEFAULT", "s1"], [(_u(["key", "key2", "ke"]), 2)] * 2),
+                     (["s1", "DEFAULT"], [(_u(["key", "key2", "ke"]), 2)] * 2)],
+    # three sections, DEFAULT at every position
+    "three-sections": [(list(p[:d]) + ["DEFAULT"] + list(p[d:]), [(_u(["key", "Key"]), 1)] * 4)
+                       for p in itertools.permutations(SEC_NAMES, 3) for d in range(4)],
+    # section names that differ only in case stay separate sections
+    "case-variant-sections": [(list(p), [(_u(["key", "Key"]), 1)] * len(p))
+                              for p in (["s1", "S1"], ["S1", "s1"], ["DEFAULT", "s1", "S1"], ["s1", "DEFAULT", "S1"],
+                                        ["default", "DEFAULT", "s1"], ["s1", "Default", "DEFAULT"])],
+}
+INI_NOVALUE = [(["s1"], [(_u(["key", "Key"], ("v", "", None)), 2)]),
+               (["DEFAULT", "s1"], [(_u(["key"], ("v", "", None)), 2), (_u(["key", "Key"], ("v", "", None)), 2)]),
+               (["s1", "DEFAULT"], [(_u(["key", "Key"], ("v", "", None)), 2), (_u(["key"], ("v", "", None)), 2)])]
 
 
 def ini_value_cases():
@@ -700,8 +781,8 @@ def ini_fill_cases(base_index, tier):
 
 S_KEYS = ["a", "b-c", "d e"]
 S_PAIRS = [("a", "b-c"), ("b-c", "d e"), ("a", "d e")]
-S_VALUES = ["x", "X", "xy", None, 1]
-S_STR = ["x", "X", "xy"]
+S_VALUES = ["x", "X", "xy", "", None, 1]      # "" is what an empty table cell parses to
+S_STR = ["x", "X", "xy", ""]
 S_FORMS = ["", "__contains", "__startswith", "__endswith", "__lower_value", "__nosuch"]
 
 
@@ -773,17 +854,18 @@ def search_cases(unit, tier):
                     for rkc in (False, True):
                         yield {"kind": "search", "rows": list(t), "container": "attr", "row_keys_change": rkc, "kwargs": [c]}
     elif part == "parent":     # one parent object reused for a second row set with the same keys
-        shapes = row_shapes(pair, ["x", "xy", None] if tier == "thorough" else ["x", None])
+        shapes = row_shapes(pair, ["x", "xy", None] if (tier == "thorough" and not unit.get("differ")) else ["x", None])
         conds = conditions(pair, ["x", None], ["x"])
         sets = [list(t) for n in range(1, 3) for t in itertools.product(shapes, repeat=n)]
 
         def sig(rs):
             return (tuple(sorted(rs[0])), tuple(sorted(set(k for r in rs for k in r))))
+        differ = bool(unit.get("differ"))       # the parent was used before for rows with OTHER keys
         for i, prior in enumerate(sets):
             if i % unit["of"] != unit["shard"]:
                 continue
             for rows in sets:
-                if sig(rows) != sig(prior) or rows == prior:
+                if (sig(rows) != sig(prior)) != differ or rows == prior:
                     continue
                 for c in conds:
                     for rkc in (False, True):
@@ -802,9 +884,15 @@ def units(tier, seed):
     for hs in header_tuples(FIXED_HEADERS, min(2, b["fixed_cols"])):
         us.append({"part": "fixed", "headers": hs})
         if len(hs) == 2 and b["fixed_cols"] >= 3:      # all three-column tables that start with these two headers
-            us.append({"part": "fixed", "headers": hs, "extend": True})
+            us.append({"part": "fixed", "headers": hs, "extend": 1})
+        if len(hs) == 1 and b["fixed_cols"] >= 4:      # all four-column tables that start with this header
+            us.append({"part": "fixed", "headers": hs, "extend": 3})
     for hs in header_tuples(DELIM_HEADERS, b["delim_cols"]):
-        if len(hs) >= 3:
+        if hs == [""]:
+            continue                                   # a table whose only heading is empty has no header line
+        if tier == "quick" and len(hs) >= 3 and ("" in hs or "C 1" in hs):
+            continue                                   # quick: three columns over the plain headings only
+        if len(hs) >= 3 and tier != "quick":
             for d in (None, ",", "|", ":"):
                 us.append({"part": "delim", "headers": hs, "delims": [d]})
         else:
@@ -828,6 +916,8 @@ def units(tier, seed):
         us.append({"part": "ini-repeat", "secs": ["s1", "s1"], "dpos": dpos, "max_opts": b["ini_opts_per_block"]})
     us.append({"part": "ini-values"})
     us.append({"part": "ini-names"})
+    us += [{"part": "ini-extra", "name": k} for k in sorted(INI_EXTRA)]
+    us.append({"part": "ini-novalue"})
     us += [{"part": "ini-fill", "base": i} for i in range(len(list(ini_fill_bases())))]
     # keyword_search
     nshape = len(row_shapes(S_PAIRS[0], S_VALUES))
@@ -837,6 +927,7 @@ def units(tier, seed):
             us.append({"part": "search", "sub": "one+two", "pair": pi, "first": f})
         us.append({"part": "search", "sub": "attr", "pair": pi})
     us += [{"part": "search", "sub": "parent", "pair": 0, "shard": i, "of": 4} for i in range(4)]
+    us += [{"part": "search", "sub": "parent", "differ": True, "pair": 0, "shard": i, "of": 4} for i in range(4)]
     return us
 
 
@@ -845,12 +936,12 @@ def unit_weight(u):
     if p == "ini-struct":
         return 100 if (u["dpos"] is not None and len(u["secs"]) == 2 and u["max_opts"] >= 2) else 5
     if p == "fixed":
-        return 90 if u.get("extend") else (20 if len(u["headers"]) == 2 else 1)
+        return 90 if u.get("extend") else (25 if len(u["headers"]) == 2 else 1)
     if p == "delim":
         return 40 if len(u["headers"]) >= 2 else 2
     if p == "search":
         return 30 if u["sub"] == "one+two" else 10
-    if p in ("ini-fill", "ini-repeat", "ini-values"):
+    if p in ("ini-fill", "ini-repeat", "ini-values", "ini-extra", "ini-novalue"):
         return 25
     return 8
 
@@ -860,8 +951,9 @@ def unit_cases(unit, tier):
     b = BOUNDS[tier]
     if p == "fixed":
         if unit.get("extend"):
-            return itertools.chain.from_iterable(fixed_cases(unit["headers"] + [h], tier)
-                                                 for h in FIXED_HEADERS if h not in unit["headers"])
+            rest = [h for h in FIXED_HEADERS if h not in unit["headers"]]
+            return itertools.chain.from_iterable(fixed_cases(unit["headers"] + list(t), tier)
+                                                 for t in itertools.permutations(rest, unit["extend"]))
         return fixed_cases(unit["headers"], tier)
     if p == "delim":
         return itertools.chain.from_iterable(delim_cases(unit["headers"], d, tier) for d in unit["delims"])
@@ -882,6 +974,10 @@ def unit_cases(unit, tier):
         return ini_struct_cases(unit["secs"], unit["dpos"], tier, max_opts=unit["max_opts"])
     if p == "ini-repeat":
         return ini_struct_cases(unit["secs"], unit["dpos"], tier, repeat=True, max_opts=unit["max_opts"])
+    if p == "ini-extra":
+        return itertools.chain.from_iterable(ini_blocks_cases(n, u) for n, u in INI_EXTRA[unit["name"]])
+    if p == "ini-novalue":
+        return itertools.chain.from_iterable(ini_blocks_cases(n, u, allow=(False, True)) for n, u in INI_NOVALUE)
     if p == "ini-values":
         return ini_value_cases()
     if p == "ini-names":
@@ -899,15 +995,15 @@ def _kv_exact(prefix):
     return kv_cases(prefix, len(prefix))
 
 
-def validate_ini_model(doc):
+def validate_ini_model(doc, allow=False):
     """The model must agree with its second formulation everywhere and with configparser wherever
     configparser accepts the text.  A disagreement is a defect of the harness, never a verdict."""
-    plain = M.View(doc).as_plain()
-    second = M.second_model(doc)
+    plain = M.View(doc, allow).as_plain()
+    second = M.second_model(doc, allow)
     if plain != second:
         raise RuntimeError("INI model and its second formulation disagree on %r: %r != %r" % (doc, plain, second))
     if M.stdlib_comparable(doc):
-        std = M.stdlib_view(M.render(doc))
+        std = M.stdlib_view(M.render(doc), allow)
         if std is not None:
             if std != plain:
                 raise RuntimeError("INI model and configparser disagree on %r: %r != %r" % (doc, plain, std))
@@ -922,7 +1018,7 @@ def run_unit(unit, tier):
     n = 0
     for case in unit_cases(unit, tier):
         if is_ini:
-            res.stat("ini_documents_cross_checked_with_configparser", validate_ini_model(case["doc"]))
+            res.stat("ini_documents_cross_checked_with_configparser", validate_ini_model(case["doc"], bool(case.get("allow_no_value"))))
         vio, nontrivial, outcome = check_case(case)
         res.evals += 1
         if nontrivial:
